@@ -2,6 +2,97 @@
 
 package main
 
-import "verif/shim/vsched"
+import (
+	"fmt"
+	"os"
+	"path/filepath"
+	"regexp"
+	"runtime"
+	"sort"
+	"strings"
 
-func installRaceImpl(e *vsched.Explorer) {}
+	"verif/shim/vsched"
+)
+
+var (
+	raceLogOff  int64
+	raceCount   int
+	raceAtAbort int
+	raceOffAt   int64
+)
+
+func raceLogPath() string {
+	for _, kv := range strings.Fields(os.Getenv("GORACE")) {
+		if strings.HasPrefix(kv, "log_path=") {
+			return fmt.Sprintf("%s.%d", strings.TrimPrefix(kv, "log_path="), os.Getpid())
+		}
+	}
+	return ""
+}
+
+func logSize() int64 {
+	if p := raceLogPath(); p != "" {
+		if st, err := os.Stat(p); err == nil {
+			return st.Size()
+		}
+	}
+	return 0
+}
+
+var frameRe = regexp.MustCompile(`(?m)^  ([^\s(]+)\(.*\n\s+([^\s]+):(\d+)`)
+
+// raceKey normalises a race report: the first frames of the two conflicting accesses (function + file:line).
+func raceKey(report string) string {
+	var tops []string
+	for _, part := range regexp.MustCompile(`(?m)^(Read|Write|Previous read|Previous write|Previous atomic \w+|Atomic \w+) at `).Split(report, -1)[1:] {
+		m := frameRe.FindStringSubmatch(part)
+		if m != nil {
+			tops = append(tops, m[1]+" "+filepath.Base(filepath.Dir(m[2]))+"/"+filepath.Base(m[2])+":"+m[3])
+		}
+		if len(tops) == 2 {
+			break
+		}
+	}
+	sort.Strings(tops)
+	return strings.Join(tops, " <-> ")
+}
+
+// installRaceImpl makes every execution a race check: reports that appear while the
+// execution is faithful (before teardown) are violations of that schedule.
+func installRaceImpl(e *vsched.Explorer) {
+	raceCount = runtime.RaceErrors()
+	raceLogOff = logSize()
+	vsched.AbortHook = func(x *vsched.Exec) {
+		raceAtAbort = runtime.RaceErrors()
+		raceOffAt = logSize()
+	}
+	e.PostRun = func(x *vsched.Exec) {
+		n := raceAtAbort - raceCount
+		if n > 0 && x.Verdict == "" {
+			text := ""
+			if p := raceLogPath(); p != "" {
+				if b, err := os.ReadFile(p); err == nil && int64(len(b)) >= raceOffAt && raceLogOff <= raceOffAt {
+					text = string(b[raceLogOff:raceOffAt])
+				}
+			}
+			reports := strings.Split(text, "==================")
+			key := ""
+			first := ""
+			for _, r := range reports {
+				if strings.Contains(r, "DATA RACE") {
+					if first == "" {
+						first = r
+						key = raceKey(r)
+					}
+				}
+			}
+			x.Verdict = "race"
+			x.Detail = "data race: " + key + "\n" + strings.TrimSpace(first)
+			if len(x.Detail) > 6000 {
+				x.Detail = x.Detail[:6000]
+			}
+		}
+		raceCount = runtime.RaceErrors()
+		raceLogOff = logSize()
+	}
+}
